@@ -20,7 +20,7 @@ Inductive kev :=
 | KStop
 | KCrash
 | KStart
-| KReplace (same_id : bool) (content : bytes)
+| KReplace (id : nat) (content : bytes)
 | KSync.
 
 Definition obs_eqb (a b : obs) : bool :=
@@ -70,7 +70,7 @@ Definition kstep (x : bool * st) (k : kev) : (bool * st) * list obs :=
       lift true (seq2 (seq2 (st1 s EStop) (fun t => st1 t EExit)) (fun t => st1 t EPersist))
   | KCrash => if down then (x, []) else lift true (seq2 (st1 s EStop) (fun t => st1 t EExit))
   | KStart => if down then lift false (seq2 (st1 s ERestart) go) else (x, [])
-  | KReplace same c => lift down (st1 s (EReplace same c))
+  | KReplace id c => lift down (st1 s (EReplace id c))
   | KSync => if down then (x, []) else
       let '(s1, o1) := st1 s ESync in
       match o1 with
